@@ -28,19 +28,18 @@ RULE = ("random ADMGs (2-7 nodes; bidirected chains through conditioned nodes an
         "graphs, non-Variable arguments). A case is non-trivial when it is in the property's scope and either the "
         "conditioning set is non-empty or the true verdict changes when every bidirected edge is deleted.")
 ASSUMPTIONS = [
-    "OPEN (no theorem): the last clause, 'consequently every reported separation is a conditional independence of every "
-    "compatible model' (global Markov property). The theorems reduce it to the textbook fact for DAGs applied to the canonical "
-    "latent DAG (dsep_iff_dsep_canonical); the check decides it per case on graphs with <=5 nodes by exact-rational evaluation "
-    "of one random compatible discrete SCM",
-    "the theorems need no acyclicity: 'verdict <-> no m-connecting path <-> no d-connecting path in dagOf G' holds for every "
-    "directed mixed graph; acyclicity only makes dagOf G a DAG (dagOf_acyclic)",
+    "the 'compatible models' of the last clause are the semi-Markovian models of lean/Y0/Spec/Scm.lean (Scm.Compatible: discrete "
+    "variables of any cardinality, positive rational parameters, independent root latents of any arity, two observed variables "
+    "share a latent only across a bidirected edge); latents with parents and non-positive distributions are outside the class",
+    "the graph-theoretic theorems need no acyclicity ('verdict <-> no m-connecting path <-> no d-connecting path in dagOf G' holds "
+    "for every directed mixed graph); acyclicity is used for dagOf G being a DAG (dagOf_acyclic) and for dsep_sound",
     "Python set iteration order inside are_d_separated is assumed irrelevant (the model uses lists); checked by re-running "
     "each query on a re-shuffled construction of the graph",
     "the TypeError branches (non-Variable arguments) have no model counterpart (the model is typed); they are exercised on the "
     "Python side only",
 ]
 EXHAUSTIVE = {"quick": False, "thorough": True}
-LEANCHECK_MODULES = ["Y0.Model.Sep", "Y0.Props.C04"]
+LEANCHECK_MODULES = ["Y0.Model.Sep", "Y0.Lemmas.SepMarkov", "Y0.Props.C04"]
 
 CORPUS = [
     # F2 witness (DESIGN section 1): B->A, B<->A, C<->A ; B vs C given A   (A=0, B=1, C=2)
@@ -68,6 +67,9 @@ CORPUS = [
     {"kind": "one", "g": {"nodes": [0, 1, 2], "di": [[0, 1]], "bi": []}, "a": 0, "b": 1, "C": [0], "shuffle_seed": 13},
     {"kind": "one", "g": {"nodes": [0, 1, 2], "di": [[0, 1]], "bi": []}, "a": 0, "b": 0, "C": [], "shuffle_seed": 14},
     {"kind": "type", "which": "left"}, {"kind": "type", "which": "right"}, {"kind": "type", "which": "conditions"},
+    {"kind": "canon", "left": 2, "right": 1, "conds": [3, 0, 3], "sep": True},
+    {"kind": "canon", "left": 1, "right": 2, "conds": [0, 3, 3], "sep": False},
+    {"kind": "canon", "left": 1, "right": 1, "conds": [], "sep": True},
 ]
 
 
@@ -143,13 +145,13 @@ def rand_query(rng, g):
 
 def cases(rng: random.Random, tier: str):
     out = [dict(c) for c in CORPUS] + C_load_corpus()
-    n_one = 2200 if tier == "quick" else 16000
+    n_one = 9000 if tier == "quick" else 60000
     for _ in range(n_one):
         g = rand_admg(rng)
         a, b, Cs = rand_query(rng, g)
         out.append({"kind": "one", "g": g, "a": a, "b": b, "C": Cs, "shuffle_seed": rng.randrange(1 << 30)})
     # malformed / out-of-scope stream
-    for _ in range(150 if tier == "quick" else 1200):
+    for _ in range(400 if tier == "quick" else 3000):
         g = G.rand_graph(rng, 1, 6, acyclic=rng.random() < 0.4)
         V = G.all_nodes(g)
         if not V:
@@ -165,8 +167,16 @@ def cases(rng: random.Random, tier: str):
         elif r < 0.6:
             Cs = Cs + [92]
         out.append({"kind": "one", "g": g, "a": a, "b": b, "C": Cs, "shuffle_seed": rng.randrange(1 << 30)})
+    # DSeparationJudgement.create / is_canonical on arbitrary (also non-canonical) records
+    for _ in range(300 if tier == "quick" else 2000):
+        n = rng.randint(0, 5)
+        conds = [rng.randrange(8) for _ in range(n)]
+        if rng.random() < 0.5:
+            conds = sorted(conds) if rng.random() < 0.7 else sorted(set(conds))
+        out.append({"kind": "canon", "left": rng.randrange(8), "right": rng.randrange(8), "conds": conds,
+                    "sep": rng.random() < 0.5})
     # verdict tables
-    for _ in range(60 if tier == "quick" else 500):
+    for _ in range(200 if tier == "quick" else 1500):
         out.append({"kind": "table", "g": rand_admg(rng, 2, 4 if tier == "quick" else 5)})
     if tier == "thorough":
         for k in (2, 3):
@@ -245,10 +255,33 @@ def _run_table(case):
     return "#" + "".join(cells), fails
 
 
+def _run_canon(case):
+    """DSeparationJudgement built directly (possibly non-canonical) and through create()"""
+    from y0.struct import DSeparationJudgement
+
+    left, right, conds = G.V(case["left"]), G.V(case["right"]), tuple(G.V(c) for c in case["conds"])
+    raw = DSeparationJudgement(case["sep"], left, right, conds)
+    made = DSeparationJudgement.create(left, right, conds, separated=case["sep"])
+    out = ["ok", ["true" if raw.is_canonical else "false", _judgement(made)]]
+    fail = None
+    want_raw = case["left"] < case["right"] and list(case["conds"]) == sorted(case["conds"])
+    if raw.is_canonical != want_raw:
+        fail = f"is_canonical={raw.is_canonical} on ({case['left']},{case['right']}|{case['conds']})"
+    elif case["left"] != case["right"] and not made.is_canonical:
+        fail = "create() returned a non-canonical judgement"
+    elif [G.vint(made.left), G.vint(made.right)] != sorted([case["left"], case["right"]]) or \
+            [G.vint(c) for c in made.conditions] != sorted(set(case["conds"])) or made.separated != case["sep"]:
+        fail = f"create() does not carry the query: {made}"
+    return {"out": out, "fail": fail, "nontrivial": len(case["conds"]) >= 2,
+            "tags": {"kind": "canon", "raw_canonical": raw.is_canonical}}
+
+
 def run_python(case):
     kind = case["kind"]
     if kind == "type":
         return _run_type(case)
+    if kind == "canon":
+        return _run_canon(case)
     g = case["g"]
     V = G.all_nodes(g)
     if kind == "table":
@@ -323,6 +356,8 @@ def _run_type(case):
 def request(case):
     if case["kind"] == "type":
         return None
+    if case["kind"] == "canon":
+        return C.enc(["sep", "canon", case["sep"], case["left"], case["right"], case["conds"]])
     g = case["g"]
     gs = C.graph_sexp(g["nodes"], g["di"], g["bi"])
     if case["kind"] == "table":
@@ -333,6 +368,8 @@ def request(case):
 def canon_model(case, rep):
     if rep[0] == "err":
         return ["err"]
+    if case["kind"] == "canon":
+        return ["ok", [rep[1], rep[2]]]
     return ["ok", rep[1]]
 
 
@@ -358,7 +395,7 @@ def shrink(case):
 
 
 def finding_key(case, res):
-    c = {k: case[k] for k in ("kind", "g", "a", "b", "C", "which") if k in case}
+    c = {k: case[k] for k in ("kind", "g", "a", "b", "C", "which", "left", "right", "conds", "sep") if k in case}
     if "g" in c:
         c["g"] = {"nodes": sorted(G.all_nodes(c["g"])), "di": sorted(c["g"]["di"]), "bi": sorted(sorted(e) for e in c["g"]["bi"])}
     if "C" in c:
@@ -367,25 +404,27 @@ def finding_key(case, res):
 
 
 MANIFEST = {
-    "text": ("Proof: 27 Lean theorems about the executable model of are_d_separated / DSeparationJudgement (the code after the "
-             "fix of defect F2). For every graph from_edges can build, all distinct a, b and all C not containing them: the test "
-             "never raises (dsep_total) and says 'separated' exactly when a, b are not connected in the augmented ancestral "
-             "graph minus C (dsep_iff_augmented), which holds exactly when there is no m-connecting path "
+    "text": ("Proof: 33 Lean theorems about the executable model of are_d_separated / DSeparationJudgement (the code after the "
+             "fix of defect F2), every clause of the property. For every graph from_edges can build, all distinct a, b and all C "
+             "not containing them: the test never raises (dsep_total) and says 'separated' exactly when a, b are not connected in "
+             "the augmented ancestral graph minus C (dsep_iff_augmented), which holds exactly when there is no m-connecting path "
              "(augmented_iff_mconn: the Lauritzen/Richardson theorem, proved from first principles in both directions, "
              "including walk-to-path shortening), which holds exactly when a, b are d-separated given C in the canonical DAG "
              "with one fresh latent parent per bidirected edge (mconn_iff_dconn_canonical; dsep_iff_dsep_canonical is the "
-             "property's main clause, dagOf_acyclic shows that graph is a DAG). Symmetry in (a, b) (dsep_symm, for verdicts "
-             "and errors alike), insertion-order independence (dsep_equiv_congr: congruence under NxMixedGraph.__eq__), the "
-             "canonical judgement record (judgement_canonical, judgement_fields, areDSeparated_symm) and the exact error "
-             "taxonomy (dsep_invalid, dsep_endpoint_conditioned) are theorems too. The model is tied to "
-             "conditional_independencies.py on every run by differential correspondence (single queries and whole verdict "
-             "tables); an independent brute-force path oracle on the canonical latent DAG (networkx.is_d_separator as second "
-             "opinion) searches for a concrete failing input. Partial only in the final 'consequently a conditional "
-             "independence of every compatible model' clause, which has no theorem."),
+             "property's main clause, dagOf_acyclic shows that graph is a DAG). Symmetry in (a, b) (dsep_symm, verdicts and "
+             "errors alike), insertion-order independence (dsep_equiv_congr: congruence under NxMixedGraph.__eq__; "
+             "dsep_cond_congr: C matters only as a set), the canonical judgement record (judgement_canonical, judgement_fields, "
+             "areDSeparated_symm) and the exact error taxonomy (dsep_invalid, dsep_endpoint_conditioned). The final clause is "
+             "dsep_sound: on every ADMG a reported separation is a conditional independence P(a,b,C)P(C) = P(a,C)P(b,C) of the "
+             "observational distribution of EVERY compatible semi-Markovian model (global Markov property, Lemmas/SepMarkov.lean, "
+             "on top of the c-factor lemmas of Lemmas/QFactor.lean). The model is tied to conditional_independencies.py on every "
+             "run by differential correspondence (single queries, whole verdict tables, judgement records); an independent "
+             "brute-force path oracle on the canonical latent DAG (networkx.is_d_separator as second opinion) and exact-rational "
+             "evaluation of random compatible SCMs search for a concrete failing input."),
     "note": ("Trusted: Lean kernel; axioms propext/Classical.choice/Quot.sound; the hand-written model and networkx "
              "(ancestors, has_path) tied to the code by sampling; the definitions of m-connecting path and canonical DAG in "
-             "Spec/SepSpec.lean. OPEN: the global Markov property (reported separation => conditional independence in every "
-             "compatible SCM) is not mechanised; it is decided per case on small graphs by exact-rational evaluation of one "
-             "random compatible SCM."),
-    "technique": "Lean 4 theorems (closure = ReflTransGen; walk induction with re-routing; loop cutting; latent-fork surgery) + differential correspondence with are_d_separated + brute-force d-connecting-path oracle on the canonical latent DAG",
+             "Spec/SepSpec.lean, of the model class in Spec/Scm.lean and of conditional independence in Spec/SepCI.lean. "
+             "Models with latents that have parents, or with zero-probability events, are outside the class the last clause "
+             "quantifies over."),
+    "technique": "Lean 4 theorems (closure = ReflTransGen; walk induction with re-routing; loop cutting; latent-fork surgery; c-factor factorisation and finite-sum algebra for the global Markov property) + differential correspondence with are_d_separated + brute-force d-connecting-path oracle on the canonical latent DAG + exact-rational SCM evaluation",
 }
